@@ -101,6 +101,36 @@ def graph_case(rng):
     return "\n".join(out) + "\n", list(range(n)), edges
 
 
+def ring_cases(rng, thorough):
+    """dependency rings of length 2..6 (structures, or constants and structures alternating through `|:S|` and `[C]u8`),
+    optionally with a tail hanging off the ring, in every declaration order (sampled above length 4); returns
+    (source, ids, edges in declaration order) like graph_case"""
+    import itertools
+    out = []
+    for n in range(2, 7):
+        perms = list(itertools.permutations(range(n)))
+        if n > 4:
+            perms = [perms[rng.below(len(perms))] for _ in range(300 if thorough else 40)]
+        for mixed in (False, True):
+            if mixed and n < 2:
+                continue
+            for order in perms:
+                kinds = ["struct" if (not mixed or i % 2 == 0) else "const" for i in range(n)]
+                lines = []
+                edges = []
+                for i in order:
+                    j = (i + 1) % n
+                    if kinds[i] == "const":
+                        target = "|:S%d|" % j if kinds[j] == "struct" else "C%d" % j
+                        lines.append("const C%d: usize = %s + 1;" % (i, target))
+                    else:
+                        member = "S%d" % j if kinds[j] == "struct" else "[C%d]u8" % j
+                        lines.append("struct S%d\n{\n\tm: %s,\n\tz: u8,\n}" % (i, member))
+                    edges.append((i, j))
+                out.append(("\n".join(lines) + "\n", list(range(n)), edges))
+    return out
+
+
 DUPS = [
     (421, "fn f()\n{\n}\nfn f()\n{\n}\n"),
     (421, "fn f(x: i32);\nfn g()\n{\n}\nfn f()\n{\n}\n"),
@@ -160,6 +190,7 @@ def main():
                     "model_request": "run\t" + progen.sx_prog(p), "implementation": ha[:1200], "model": ma[:600]})
     # (b) dependency graphs
     gcases = [graph_case(rng.fork("g%d" % i)) for i in range(20000 if thorough else 400)]
+    gcases += ring_cases(rng.fork("rings"), thorough)
     gm = run_model(["cycle\t(graph (ids %s) (edges %s))" % (" ".join(map(str, ids)), " ".join("(%d %d)" % e for e in edges))
                     for _, ids, edges in gcases])
     gh = run_harness(["alpha\tcheck\tg.pn\t" + esc(src) for src, _, _ in gcases])
